@@ -522,3 +522,73 @@ def write_evidence(pid, tier, seed, coverage, assumptions, wall, violations):
     tmp = os.path.join(EVIDENCE, ".%s.json.tmp" % pid)
     json.dump(ev, open(tmp, "w"), indent=1)
     os.replace(tmp, os.path.join(EVIDENCE, "%s.json" % pid))
+
+
+# ---------------------------------------------------------------- boundary variants
+# Variants of generated cases aimed at what a size- or character-specific special case in the code would key on:
+# a run stretched to just below / at / above 255, 1023, 4095, 8191 and 65535, and unusual-but-legal characters at the
+# start, at the end and in the middle of an argument.  They go through the same comparison as every other case.
+VAR_TEXT_OPS = {"pat.new", "pat.match", "pat.best", "dewey.new", "dewey.match", "pkgname", "sum.parse", "path.new", "dep.new", "dg.name", "md.from"}
+VAR_BYTE_OPS = {"stream", "di.parse", "di.roundtrip", "di.classify", "pl.parse", "pl.entry", "pl.query", "scan.readb"}
+VAR_FIRST_TEXT = {"scan.read"}
+BOUNDARY_LENGTHS = [254, 255, 256, 257, 1022, 1023, 1024, 1025, 4095, 4096, 4097, 8191, 8192, 8193, 65535, 65536, 65537]
+SPECIAL_TEXT = [0, 0x7F, 0x0B, 0x0C, 0x0D, 0x85, 0xA0, 0x2028, 0x2029, 0x3000, 0xFEFF, 0x0301, 0x1F600, 0x212A, 0x130, 0x17F, 0x663, 0xFF11, 0x200B]
+SPECIAL_BYTES = [0, 0x7F, 0x0B, 0x0C, 0x0D, 0x85, 0xA0, 0xFF, 0xFE, 0xC3, 0xE9, 0xEF, 0xBB, 0xBF, 0x80]
+
+
+def boundary_variants(rng, cases, count, max_len=65537):
+    pool = [c for c in cases if (c.op in VAR_TEXT_OPS or c.op in VAR_BYTE_OPS or c.op in VAR_FIRST_TEXT) and c.margs is None and c.sargs is None and c.mop == c.op and c.args]
+    out = []
+    if not pool:
+        return out
+    lengths = [L for L in BOUNDARY_LENGTHS if L <= max_len]
+    for _ in range(count):
+        c = rng.choice(pool)
+        is_bytes = c.op in VAR_BYTE_OPS
+        ai = 0 if c.op in VAR_FIRST_TEXT else rng.randrange(len(c.args))
+        try:
+            cs = dec(c.args[ai])
+        except ValueError:
+            continue
+        if sum(len(a) for a in c.args) > 400000:
+            continue
+        r = rng.random()
+        kind = None
+        if r < 0.45:
+            L = rng.choice(lengths)
+            i = rng.randrange(len(cs)) if cs else 0
+            ch = cs[i] if cs else 97
+            if 48 <= ch <= 57 and L > 5000:
+                L = 4096                      # very long digit runs cost the model minutes (unbounded Z arithmetic)
+            if ch in (123, 125, 42, 60, 62) and L > 300:
+                ch = 97                       # thousands of braces, stars or operators are a cost question, not a boundary question
+            new = cs[:i] + [ch] * (L - 1) + cs[i:]
+            kind = "run-%d" % L
+        elif r < 0.6:
+            # the whole argument brought to a boundary length by repeating its last character
+            L = rng.choice(lengths[:11])
+            ch = cs[-1] if cs else 97
+            if (48 <= ch <= 57) or ch in (123, 125, 42, 10, 60, 62):
+                ch = 97
+            new = cs + [ch] * max(0, L - len(cs))
+            kind = "total-%d" % L
+        else:
+            sp = rng.choice(SPECIAL_BYTES if is_bytes else SPECIAL_TEXT)
+            where = rng.choice(["start", "end", "mid", "after-sep"])
+            if where == "start":
+                new = [sp] + cs
+            elif where == "end":
+                new = cs + [sp]
+            elif where == "mid" or not cs:
+                i = rng.randrange(len(cs) + 1)
+                new = cs[:i] + [sp] + cs[i:]
+            else:
+                seps = [k for k, x in enumerate(cs) if x in (10, 32, 45, 47, 58, 61, 44, 40, 41)]
+                i = (rng.choice(seps) + rng.choice([0, 1])) if seps else 0
+                new = cs[:i] + [sp] + cs[i:]
+            kind = "special-%x-%s" % (sp, where)
+        args = list(c.args)
+        args[ai] = enc(new)
+        meta = {"nt": True, "variant": kind}
+        out.append(Case(c.op, args, meta=meta, tag="boundary"))
+    return out
